@@ -8,7 +8,7 @@ Open Scope Z_scope.
 Fixpoint zl_eqb (a b : list Z) : bool :=
   match a, b with
   | [], [] => true
-  | x :: a', y :: b' => (x =? y) && zl_eqb a' b'
+  | x :: a', y :: b' => if x =? y then zl_eqb a' b' else false   (* lazy: vm_compute is call-by-value *)
   | _, _ => false
   end.
 Definition oz_eqb (a b : option Z) : bool :=
@@ -20,7 +20,7 @@ Definition oz_eqb (a b : option Z) : bool :=
 Fixpoint list_eqb {A : Type} (f : A -> A -> bool) (a b : list A) : bool :=
   match a, b with
   | [], [] => true
-  | x :: a', y :: b' => f x y && list_eqb f a' b'
+  | x :: a', y :: b' => if f x y then list_eqb f a' b' else false
   | _, _ => false
   end.
 
@@ -32,9 +32,9 @@ Definition dcev_eqb (a b : dcev) : bool :=
   | _, _ => false
   end.
 Definition pchunk_eqb (a b : pchunk) : bool :=
-  (p_flags a =? p_flags b) && (p_sid a =? p_sid b) && (p_ssn a =? p_ssn b) && (p_ppid a =? p_ppid b)
-  && zl_eqb (p_data a) (p_data b).
-Definition chunk_eqb (a b : chunk) : bool := (c_tsn a =? c_tsn b) && pchunk_eqb (c_p a) (c_p b).
+  if (p_flags a =? p_flags b) && (p_sid a =? p_sid b) && (p_ssn a =? p_ssn b) && (p_ppid a =? p_ppid b)
+  then zl_eqb (p_data a) (p_data b) else false.
+Definition chunk_eqb (a b : chunk) : bool := if c_tsn a =? c_tsn b then pchunk_eqb (c_p a) (c_p b) else false.
 
 (* static configuration of a channel (what new_data_channel_tx hands over) *)
 Definition chan_cfg_eqb (a b : chan) : bool :=
